@@ -31,7 +31,8 @@ ClassesAt == /\ pc = "go"
                       inp' = DecodeCase(c, n, [AllValid(c, n) EXCEPT ![j] = cl], delta)
              /\ pc' = "done"
 
-Ix(U) == {<< >>, << 0 >>, << 1 >>, << U >>, << U + 1 >>, << Half >>, << MaxU >>, << 0, 0 >>, << 1, 0 >>, << 0, MaxU >>}
+Ix(U) == {<< >>, << 0 >>, << 1 >>, << U >>, << U + 1 >>, << Half >>, << MaxU >>, << 0, 0 >>, << 1, 0 >>, << 0, MaxU >>,
+          << MaxU, 0 >>, << U + 2, 0 >>, << Half, 1, 0 >>}        \* not ascending, an out-of-range index first
 CountCase(op, a, r) == [kind |-> "counts", op |-> op, a |-> a, res |-> r.res, gens |-> r.gens]
 Counts ==
   /\ pc = "go"
